@@ -16,7 +16,7 @@ FullAlphabet ==
 (* quick tier: six sender/claimed-seat pairs (the three owners, an outsider *)
 (* and the excluded member claiming included seats, an owner claiming an    *)
 (* out-of-range seat) with every content                                    *)
-MidSenders == { <<1, 1>>, <<2, 2>>, <<3, 3>>, <<0, 1>>, <<3, 2>>, <<1, 4>> }
+MidSenders == { <<1, 1>>, <<2, 2>>, <<3, 3>>, <<0, 1>>, <<2, 3>>, <<1, 4>> }
 MidAlphabet ==
     { [key |-> s[1], sid |-> s[2], msg |-> c.msg, att |-> c.att, end |-> c.end, sig |-> c.sig] :
         s \in MidSenders, c \in [msg : BOOLEAN, att : BOOLEAN, end : MCEnds, sig : MCSigs] }
@@ -26,7 +26,7 @@ SmallAlphabet ==
     { [key |-> s, sid |-> s, msg |-> TRUE, att |-> TRUE, end |-> e, sig |-> g] :
         s \in 1..3, e \in {TimeoutBlock - 1, TimeoutBlock}, g \in {"A", "B"} }
 
-(* three seats, three operators, seat 3 is excluded from the attempt *)
+(* three seats, three operators; the configurations exclude seat 2 *)
 OwnerDistinct == [s \in 1..3 |-> s]
 
 (* four seats; operator 1 holds the included seat 1 and the excluded seat 3 *)
